@@ -460,7 +460,7 @@ func (g *Engine) runPath(w *worker, in Instance, script []int64, solverKind stri
 		cfg.MaxSteps = h.MaxSteps
 	}
 	e := &Exec{eng: g, ctx: w.ctx, sol: w.sol, src: &decisionSrc{script: append([]int64{}, script...)},
-		globs: map[*ssa.Global]*Pointer{}, pools: map[*Object][]Value{}, extErr: map[string]*IfaceV{}, symSeq: map[string]int{},
+		globs: map[*ssa.Global]*Pointer{}, pools: map[*Object][]Value{}, builders: map[*Value][]*Term{}, extErr: map[string]*IfaceV{}, symSeq: map[string]int{},
 		reached: map[string]bool{}, reachModel: map[string]map[string]uint64{}, notes: map[string]int{},
 		globalWr: map[string]bool{}, impure: map[*ssa.Function]bool{}, cfg: cfg, oblCache: map[int][][]int{}, hname: h.Name, shared: w.shared, sumBase: -1}
 	for _, pm := range w.shared.models {
